@@ -25,7 +25,7 @@ DIMS = {
     "fmt": ["glyf_colr_1", "cff_colr_1", "cff2_colr_1"],
     "outline": ["ell", "tri", "blob", "quad", "oval", "ring"],
     "stack": ["base", "one", "three", "three_rev", "four", "twice"],
-    "place": ["t", "id", "r90", "r180", "r30", "r45", "r1", "mx", "my", "md", "s2", "s05", "nu", "nu2", "nu_int", "x2", "sk", "out", "tiny", "tinycopy", "near", "off05", "far"],
+    "place": ["t", "id", "r90", "r180", "r30", "r45", "r1", "mx", "my", "md", "s2", "s05", "nu", "nu2", "nu_int", "x2", "rorigin", "sk", "out", "tiny", "tinycopy", "near", "off05", "far"],
     "donor_paint": ["red", "rgba", "rgba_op", "named", "omitted", "omitted_op", "opacity", "current", "current_op", "var", "var_op"],
     "copy_paint": ["blue", "same", "black", "alpha", "current", "var", "lin_bbox", "lin_user", "rad_bbox", "rad_focal_fr", "rad_user_gt"],
     "twin": ["none", "same_glyph", "cross_glyph"],
@@ -252,6 +252,19 @@ def mk(a):
         # user-space gradient on the copy the compensating inverse scales the gradient's geometry past int16, so
         # nanoemoji has to carry it in a wrapping transform instead (the OverflowError route of write_font)
         copy_d = P(od, aff.mul(aff.tr(12, 30), aff.sc(0.04)), nd=5)
+      elif pl == "rorigin":
+        # a quarter turn about the point of this viewBox that lands on the *font-space origin* under the metrics in force: the placing
+        # transform is then a pure rotation without any translation (exactly so where that point has a 3-decimal source coordinate,
+        # e.g. metrics (1000, 800, -200) with the default width: (-13.75, 80)); the copy ends up below the descender
+        from vmc.oracles import scene as sc_
+
+        M_, _ = sc_.vb_to_font(vb, a["metrics"][1], a["metrics"][2], a["width"], aff.I)
+        if abs(aff.det(M_)) < 1e-12:
+            copy_d = P(od, PL["t"])
+        else:
+            qx, qy = aff.ap(aff.inv(M_), (0, 0))
+            kk = min(vb[2], vb[3]) / 100.0
+            copy_d = P(od, aff.around(aff.rot(90), (qx - vb[0]) / kk, (qy - vb[1]) / kk))
       else:
         copy_d = P(od, PL[pl])
         if pl in ("near", "off05", "far"):
